@@ -667,3 +667,291 @@ def switch_on_try_call(fn, target):
                 continue
             out.append((b, blk["t"][3], zero[0], cb))
     return out
+
+
+# ------------------------------------------------------------------------------------------------
+# A3 variant: definite reset of a reused destination (every success path overwrites / clears it)
+# ------------------------------------------------------------------------------------------------
+
+_DEREF_CALL_RX = re.compile(r"(\bAsMut\b.*::as_mut|\bDerefMut\b.*::deref_mut|\bBorrowMut\b.*::borrow_mut)$")
+_CLEAR_RX = re.compile(r"(::clear|::truncate|slice::<impl \[T\]>::(copy_from_slice|clone_from_slice|fill)|option::Option::<T>::take|"
+                       r"mem::take|mem::replace|clone::Clone::clone_from)$")
+
+
+def _alias_closure(fn, seeds):
+    """Locals that point at (the whole of) the object the seed pointers point at: copies, reborrows `&mut *p`, the payload
+    of Option::Some (`&mut (*p as Some).0`: in that arm the payload is the whole content), AsMut/DerefMut views."""
+    al = set(seeds)
+    changed = True
+    while changed:
+        changed = False
+        for bi, blk in enumerate(fn.blocks):
+            for st in blk["s"]:
+                if st[0] != "=" or st[1][1]:
+                    continue
+                dst = st[1][0]
+                if dst in al:
+                    continue
+                rv = st[2]
+                src = None
+                if rv[0] == "use" and rv[1][0] in ("c", "m") and not rv[1][1][1]:
+                    src = rv[1][1][0]
+                elif rv[0] == "ref":
+                    pl = rv[2]
+                    pr = pl[1]
+                    if pr == ["*"] or (len(pr) == 3 and pr[0] == "*" and isinstance(pr[1], list) and pr[1][0] == "dc" and pr[1][1] == "Some"
+                                       and isinstance(pr[2], list) and pr[2][0] == "f" and pr[2][1] == 0):
+                        src = pl[0]
+                elif rv[0] == "cast" and rv[2][0] in ("c", "m") and not rv[2][1][1]:
+                    src = rv[2][1][0]
+                if src is not None and src in al:
+                    al.add(dst)
+                    changed = True
+            t = blk["t"]
+            if t[0] == "call":
+                c = t[1]
+                if c.get("dest") and not c["dest"][1] and c["dest"][0] not in al and _DEREF_CALL_RX.search(c.get("f") or "") and c["args"]:
+                    l = C.op_local(c["args"][0])
+                    if l in al:
+                        al.add(c["dest"][0])
+                        changed = True
+    return al
+
+
+def reset_blocks(fb, fn, seeds, depth=3, _memo=None):
+    """Blocks of fn in which the object behind the seed pointers is definitely overwritten or cleared."""
+    memo = _memo if _memo is not None else {}
+    al = _alias_closure(fn, seeds)
+    out = set()
+    for bi, blk in enumerate(fn.blocks):
+        if blk.get("cu"):
+            continue
+        for st in blk["s"]:
+            if st[0] == "=" and st[1][0] in al and st[1][1] == ["*"]:
+                out.add(bi)
+        t = blk["t"]
+        if t[0] != "call":
+            continue
+        c = t[1]
+        fk = c.get("f") or ""
+        hit = [i for i, a in enumerate(c["args"]) if C.op_local(a) in al and a[0] in ("c", "m") and not a[1][1]]
+        if not hit:
+            continue
+        if _CLEAR_RX.search(fk) and hit[0] == 0:
+            # `truncate(n)` resets only for n == 0
+            if not fk.endswith("::truncate") or C.eval_const(fn, c["args"][1]) == 0:
+                out.add(bi)
+                continue
+        g = fb.fns.get(fk)
+        if g is not None and depth > 0 and not g.is_closure:
+            for i in hit:
+                if param_definitely_reset(fb, g, i + 1, depth - 1, memo):
+                    out.add(bi)
+                    break
+    return out
+
+
+def param_definitely_reset(fb, g, param_local, depth=2, memo=None):
+    memo = memo if memo is not None else {}
+    key = (g.key, param_local)
+    if key in memo:
+        return memo[key]
+    memo[key] = False
+    kb = reset_blocks(fb, g, {param_local}, depth, memo)
+    ex = C.success_exit_blocks(g)
+    reach = C.reachable(g, 0, removed=kb) if 0 not in kb else set()
+    memo[key] = bool(ex) and not any(e in reach for e in ex)
+    return memo[key]
+
+
+def definite_reset_rule(ctx, rule, fn, seeds, what, keypart, extra_kill=frozenset(), start_after=None):
+    """Every path entry (or the return of the `start_after` call) -> success exit of fn overwrites or clears the
+    destination behind `seeds`."""
+    kb = reset_blocks(ctx.fb, fn, seeds) | set(extra_kill)
+    ex = C.success_exit_blocks(fn)
+    if not ex:
+        ctx.violation(rule, "%s/NO-EXIT/%s" % (rule, fn.key), "no success exit found in %s" % fn.key, fn.loc())
+        return False
+    starts = [0]
+    if start_after is not None:
+        starts = [c["t"] for b, c in fn.calls() if start_after(c) and c["t"] is not None]
+        if not starts:
+            ctx.violation(rule, "%s/ANCHOR-MISSING/%s/start" % (rule, fn.key), "start call of the reset rule not found in %s" % fn.key, fn.loc())
+            return False
+    reach = set()
+    for s0 in starts:
+        if s0 not in kb:
+            reach |= C.reachable(fn, s0, removed=kb)
+    hit = [e for e in ex if e in reach]
+    if not hit:
+        ctx.ok(rule, "%s :: %s" % (fn.key, what), "every success path passes one of %d overwrite/clear site(s)" % len(kb), fn.loc())
+        return True
+    path = next((p for p in (shortest_path(fn, s0, set(hit), removed=kb) for s0 in starts) if p), [])
+    ctx.violation(rule, "%s/stale/%s/%s" % (rule, fn.key, keypart),
+                  "%s: %s returns Ok on a path that neither overwrites nor clears it (lines %s): a reused buffer keeps the previous "
+                  "record's value" % (what, fn.key, path_lines(fn, path)), fn.loc(hit[0]),
+                  detail={"path_blocks": path, "reset_blocks": sorted(kb)})
+    return False
+
+
+def reused_buffer_rule(ctx, rule, fkey, owner_sub, setters, owner_param=None, exceptions=None, start_after=None):
+    """parse-into-a-reused-buffer: for each `<column>_mut()` accessor of the destination record that the parser calls, all
+    success paths overwrite (`*p = v`), clear, or hand the pointer to a callee that does so on all of its own success paths
+    (or reset the whole record through `owner_param`). `setters` is the confirmed column list; `exceptions` maps a column
+    to the reason the whole-object rule cannot decide it (reported, not checked)."""
+    exceptions = exceptions or {}
+    fp = ctx.anchor(rule, fkey)
+    if fp is None:
+        return
+    owner_kill = set()
+    if owner_param is not None:
+        al = _alias_closure(fp, {owner_param})
+        for b, c in fp.calls():
+            fk = c.get("f") or ""
+            if fk.endswith("::clear") and c["args"] and C.op_local(c["args"][0]) in al:
+                g = ctx.fb.fns.get(fk)
+                if g is None or clear_is_complete(ctx, rule, g):
+                    owner_kill.add(b)
+        for bi, blk in enumerate(fp.blocks):
+            if any(st[0] == "=" and st[1][0] in al and st[1][1] == ["*"] for st in blk["s"]):
+                owner_kill.add(bi)
+    found = {(c.get("f") or "").split("::")[-1] for b, c in fp.calls() if owner_sub in (c.get("f") or "")
+             and (c.get("f") or "").split("::")[-1].endswith("_mut")}
+    extra = sorted(found - set(setters))
+    if extra:
+        ctx.violation(rule, "%s/unlisted-column/%s/%s" % (rule, fkey, ",".join(extra)),
+                      "%s writes through %s, which the rule's column table does not list" % (fkey, extra), fp.loc())
+    n = 0
+    for name in setters:
+        seeds = {c["dest"][0] for b, c in fp.calls() if owner_sub in (c.get("f") or "") and (c.get("f") or "").split("::")[-1] == name
+                 and c.get("dest") and not c["dest"][1]}
+        if not seeds:
+            ctx.violation(rule, "%s/ANCHOR-MISSING/%s/%s" % (rule, fkey, name), "%s no longer calls %s()" % (fkey, name), fp.loc())
+            continue
+        if name in exceptions:
+            ctx.ok(rule, "%s :: column behind %s()" % (fkey, name), "NOT DECIDED: " + exceptions[name], fp.loc())
+            continue
+        n += 1
+        definite_reset_rule(ctx, rule, fp, seeds, "column behind %s()" % name, name, extra_kill=owner_kill, start_after=start_after)
+    ctx.floor(rule, "columns of %s checked for reset" % fkey.split("::")[-1], n, len(setters) - len(exceptions))
+
+
+def clear_is_complete(ctx, rule, g):
+    """A workspace `clear(&mut self)` used as the reset of a reused record must touch every field of Self mutably."""
+    fb = ctx.fb
+    ty = g.locals[1] if len(g.locals) > 1 else None
+    m = re.match(r"&mut ([A-Za-z0-9_:]+)", ty or "")
+    adt = fb.adts.get(m.group(1)) if m else None
+    if adt is None or len(adt["variants"]) != 1:
+        ctx.ok(rule, g.key + " resets the record", "clear() of a non-struct or foreign type: trusted by name", g.loc())
+        return True
+    fields = adt["variants"][0]["fields"]
+    touched = set()
+    for blk in g.blocks:
+        places = []
+        for st in blk["s"]:
+            if st[0] == "=":
+                places.append(st[1])
+                if st[2][0] == "ref" and st[2][1] == "m":
+                    places.append(st[2][2])
+        for pl in places:
+            if pl[0] == 1 and len(pl[1]) >= 2 and pl[1][0] == "*" and isinstance(pl[1][1], list) and pl[1][1][0] == "f":
+                touched.add(pl[1][1][1])
+    missing = [f["name"] for i, f in enumerate(fields) if i not in touched]
+    if missing:
+        ctx.violation(rule, "%s/incomplete-clear/%s/%s" % (rule, g.key, ",".join(missing)),
+                      "%s does not reset field(s) %s: a reused record keeps them from the previous read" % (g.key, missing), g.loc())
+        return False
+    ctx.ok(rule, g.key + " resets every field of the record", "%d field(s) touched mutably" % len(fields), g.loc())
+    return True
+
+
+# ------------------------------------------------------------------------------------------------
+# A2 variant: configuration plumbing — every builder option is consumed somewhere
+# ------------------------------------------------------------------------------------------------
+
+_FIELD_READ_INDEX = {}
+
+
+def _field_projs(place):
+    return [(p[3], p[2]) for p in place[1] if isinstance(p, list) and p[0] == "f" and len(p) > 3]
+
+
+def field_read_index(fb):
+    """(owner, field) -> {fn key: count} of places that READ the field (operand use, borrow, discriminant, call argument,
+    switch operand); plain assignments `self.field = v` do not count. One pass over all bodies, cached per fact base."""
+    if id(fb) in _FIELD_READ_INDEX:
+        return _FIELD_READ_INDEX[id(fb)]
+    idx = {}
+
+    def hit(key, place):
+        for of in _field_projs(place):
+            d = idx.setdefault(of, {})
+            d[key] = d.get(key, 0) + 1
+
+    for key, f in fb.fns.items():
+        for blk in f.blocks:
+            if blk.get("cu"):
+                continue
+            for st in blk["s"]:
+                if st[0] != "=":
+                    continue
+                rv = st[2]
+                for o in rvalue_operands(rv):
+                    if o[0] in ("c", "m"):
+                        hit(key, o[1])
+                if rv[0] == "ref":
+                    hit(key, rv[2])
+                elif rv[0] in ("rawptr", "discr", "len") and isinstance(rv[-1], list):
+                    hit(key, rv[-1])
+            t = blk["t"]
+            if t[0] == "call":
+                for a in t[1]["args"]:
+                    if a[0] in ("c", "m"):
+                        hit(key, a[1])
+            elif t[0] == "sw" and t[1][0] in ("c", "m"):
+                hit(key, t[1][1])
+    _FIELD_READ_INDEX.clear()
+    _FIELD_READ_INDEX[id(fb)] = idx
+    return idx
+
+
+def field_readers(fb, owner, field):
+    return field_read_index(fb).get((owner, field), {})
+
+
+_DERIVE_TRAITS = re.compile(r"^(core::(clone::Clone|fmt::Debug|cmp::PartialEq|cmp::Eq|cmp::PartialOrd|cmp::Ord|hash::Hash|default::Default)|"
+                            r"std::fmt::Debug)")
+
+
+def option_plumbing_rule(ctx, rule, adt_rx, floor, exceptions=None):
+    """Every field of the matching builder/option structs is read by at least one function that is neither its setter
+    (`set_<field>` / `<field>` consuming setter that only stores) nor a derived trait impl."""
+    exceptions = exceptions or {}
+    fb = ctx.fb
+    rx = re.compile(adt_rx)
+    n = 0
+    for owner, adt in sorted(fb.adts.items()):
+        if not rx.search(owner) or adt["kind"] != "Struct":
+            continue
+        for fl in adt["variants"][0]["fields"]:
+            field = fl["name"]
+            if field.isdigit():
+                continue
+            n += 1
+            rd = field_readers(fb, owner, field)
+            users = []
+            for k in rd:
+                f = fb.fns[k]
+                if f.trait and _DERIVE_TRAITS.search(f.trait):
+                    continue
+                users.append(k)
+            key = "%s.%s" % (owner, field)
+            if users:
+                ctx.ok(rule, "option %s is consumed" % key, "read by %d function(s), e.g. %s" % (len(users), sorted(users)[0]))
+            elif key in exceptions:
+                ctx.ok(rule, "option %s" % key, "tabled: " + exceptions[key])
+            else:
+                ctx.violation(rule, "%s/ignored-option/%s" % (rule, key),
+                              "%s is stored by its setter but no function ever reads it: the configured value is silently ignored" % key)
+    ctx.floor(rule, "builder option fields examined", n, floor)
